@@ -38,7 +38,7 @@ TrSetup ==
                   [start |-> a.start, end |-> a.end, freq |-> a.freq, fkind |-> a.fkind, comp |-> a.comp, incl |-> a.incl]]
     /\ fcfg' = [i \in {Ev.fcs[k].name : k \in 1..Len(Ev.fcs)} |->
                   LET f == CHOOSE f \in Range(Ev.fcs) : f.name = i IN
-                  [start |-> f.start, end |-> f.end, freq |-> f.freq, wc |-> f.wc, k |-> f.k]]
+                  [start |-> f.start, end |-> f.end, freq |-> f.freq, wc |-> f.wc, plan |-> f.plan]]
     /\ records' = [i \in {Ev.acs[k].name : k \in 1..Len(Ev.acs)} |-> <<>>]
     /\ fstate' = [i \in {Ev.fcs[k].name : k \in 1..Len(Ev.fcs)} |-> [last |-> 0, held |-> <<>>, file |-> <<>>, groups |-> <<>>]]
     /\ UNCHANGED <<clock, env, val>>
